@@ -289,7 +289,7 @@ class Check:
             for ln in tf:
                 if '"ev":"Reset"' in ln:
                     execs += 1
-                execs += ln.count('"sched":') + ln.count('{"k":')
+                execs += ln.count('"sched":') + len(re.findall(r'\{"k":\d', ln))      # schedule runs, fault / crash points
         self.cov["traces_validated_against_impl"] += execs if execs > 0 else n
         self.cov["trace_files"] = self.cov.get("trace_files", 0) + 1
         self.cov["events_validated"] += n
